@@ -9,6 +9,7 @@ import (
 	"fmt"
 	"os"
 	"path/filepath"
+	"runtime"
 	"strings"
 	"sync/atomic"
 	"testing"
@@ -191,6 +192,28 @@ func c17Families(thorough bool) []c17Member {
 		sb.WriteString("\treturn t\n}\n")
 		out = append(out, c17Member{"nested-loops-doubled-starts", n, sb.String(), ""})
 	}
+	// F3d: a chain of generic functions each of which instantiates the previous one twice with
+	// different type arguments (2^n reachable instantiations, none of them reported)
+	for _, n := range []int{4, 8, 10, 12} {
+		var sb strings.Builder
+		sb.WriteString(hdr + "func g0[T any](x T) int { return 0 }\n")
+		for k := 1; k <= n; k++ {
+			fmt.Fprintf(&sb, "func g%d[T any](x T) int { return g%d[[1]T]([1]T{}) + g%d[[2]T]([2]T{}) }\n", k, k-1, k-1)
+		}
+		fmt.Fprintf(&sb, "func F(a int) int { return g%d[int](a) }\n", n)
+		out = append(out, c17Member{"generic-instantiation-doubling", n, sb.String(), ""})
+	}
+	// F3e: constant strings that double (const s1 = s0 + s0; ...): 16 bytes * 2^n of constant text
+	// from n short lines; the string caps apply to what is KEPT
+	for _, n := range []int{8, 12, 16, 18, 20} {
+		var sb strings.Builder
+		sb.WriteString(hdr + "const s0 = \"0123456789abcdef\"\n")
+		for k := 1; k <= n; k++ {
+			fmt.Fprintf(&sb, "const s%d = s%d + s%d\n", k, k-1, k-1)
+		}
+		fmt.Fprintf(&sb, "func F(a int) string {\n\tif a > 0 {\n\t\treturn s%d\n\t}\n\treturn \"x\"\n}\n", n)
+		out = append(out, c17Member{"const-string-doubling", n, sb.String(), ""})
+	}
 	// F4: block count up to beyond the size guard
 	for _, n := range []int{500, 1000, 2000, 2600} {
 		var sb strings.Builder
@@ -246,6 +269,7 @@ func TestVerifC17(t *testing.T) {
 		}
 		return nil, 0, fmt.Errorf("F not found")
 	}
+	prevAlloc := map[string][2]int64{}
 	prev := map[string]c17Counters{}
 	prevN := map[string]int{}
 	// the watchdog: a counter beyond its hard cap ends the run with a violation
@@ -314,7 +338,11 @@ func TestVerifC17(t *testing.T) {
 			capRen.Store(b0.renamer + 50*400*(8*lines+1)*(lines+1))
 			curKey.Store(key)
 		}
+		var ms0, ms1 runtime.MemStats
+		runtime.ReadMemStats(&ms0)
 		oldFn, instrs, err := load(fmt.Sprintf("m%d-old", mi), m.old)
+		runtime.ReadMemStats(&ms1)
+		loadAlloc := int64(ms1.TotalAlloc - ms0.TotalAlloc)
 		curKey.Store("")
 		if err != nil {
 			r.Fail("%s: %v", key, err)
@@ -364,6 +392,8 @@ func TestVerifC17(t *testing.T) {
 			}
 		}()
 		curKey.Store("")
+		runtime.ReadMemStats(&ms1)
+		loadAlloc = int64(ms1.TotalAlloc - ms0.TotalAlloc) // loading, building, fingerprinting, topology, zipper
 		after := c17Read()
 		d := c17Counters{after.equiv - base.equiv, after.scev - base.scev, after.renamer - base.renamer}
 		r.Eval()
@@ -393,10 +423,22 @@ func TestVerifC17(t *testing.T) {
 			chk("scev-evaluations", p.scev, d.scev)
 			chk("renamer-invocations", p.renamer, d.renamer)
 		}
+		// memory allocated while loading + building + fingerprinting the member (work no counter
+		// sees: the SSA builder, the type checker): between consecutive sizes of a family it may grow
+		// at most with the cube of the source size (x1.5 slack); below 4 MB fixed costs dominate
+		if pa, ok := prevAlloc[m.family]; ok && pa[0] >= 4<<20 && len(m.old) > int(pa[1]) {
+			sizeRatio := float64(len(m.old)) / float64(pa[1])
+			if lim := sizeRatio * sizeRatio * sizeRatio * 1.5; float64(loadAlloc) > float64(pa[0])*lim {
+				r.Violate("alloc-growth/"+key, fmt.Sprintf("%s: analysing the source allocated %.1f MB for %d bytes of source; the previous member of the family allocated %.1f MB for %d bytes: factor %.1f for a size factor %.2f (cubic growth would allow %.1f)", key, float64(loadAlloc)/1e6, len(m.old), float64(pa[0])/1e6, pa[1], float64(loadAlloc)/float64(pa[0]), sizeRatio, lim), rp)
+			}
+		}
+		prevAlloc[m.family] = [2]int64{loadAlloc, int64(len(m.old))}
 		prev[m.family], prevN[m.family] = d, m.n
 		r.Sample(map[string]interface{}{"member": key, "instructions": instrs, "blocks": len(oldFn.Blocks), "loops": loops, "equivalence_comparisons": d.equiv, "scev_evaluations": d.scev, "renamer_invocations": d.renamer})
 		r.Count("measured:"+key+":equiv", d.equiv)
 		r.Count("measured:"+key+":scev", d.scev)
 		r.Count("measured:"+key+":renamer", d.renamer)
+		r.Count("measured:"+key+":alloc_bytes", loadAlloc)
+		r.Count("measured:"+key+":source_bytes", int64(len(m.old)))
 	}
 }
